@@ -200,7 +200,28 @@ def replay(res, ctx, path):
             if not core.close(d["post"][2], e["post"][2], TOL):
                 return ["row %d total cost base %s vs %s" % (j, d["post"][2], e["post"][2])]
         return []
-    return corecheck.replay(res, ctx, path, pair_judge=pair)
+    def pair_with_bound(runs):
+        msgs = pair(runs)
+        if not msgs and "input_original" in runs and "input_with_split" in runs:
+            msgs = _replay_bound(ctx, runs["input_original"], runs["input_with_split"])
+        return msgs
+    return corecheck.replay(res, ctx, path, pair_judge=pair_with_bound)
+
+
+def _replay_bound(ctx, x, y):
+    """the proved-bound pass on a recorded pair: position and number of the inserted split rows are read off
+    the two inputs (the first row that differs is the first inserted one)"""
+    rx, ry = x["case"]["rows"], y["case"]["rows"]
+    sig = lambda r: (r["act"], r["td"], r["sd"], r.get("af"), (r.get("sh") or (None, None))[1], r.get("split"))
+    k = next((i for i in range(len(rx)) if sig(rx[i]) != sig(ry[i])), len(rx))
+    nins = len(ry) - len(rx)
+    if nins < 1 or any(r["act"] != "Split" for r in ry[k:k + nins]):
+        return []
+    ratio = ry[k]["split"]
+    c = corecheck._Collect()
+    proved_bound_pass(c, ctx, [x], [y], [(k, nins, Fraction(ratio[0]) / Fraction(ratio[1]), ratio, False)],
+                      {"st": collections.Counter(), "diffs": []})
+    return c.msgs
 
 
 # ---- the PROVED bound under rounding (C15_dec_split_neutral_bound, coq/Proofs/C15Dec.v; class and per-row
